@@ -231,8 +231,13 @@ def check_save(root, before, after, view_b, view_a, step, what):
                             f'{sorted(tags_b)} to {e.tag}')
     if target:
         rewritten = {R.strip_compression(p) for p in changed}
+        real_target = os.path.realpath(os.path.join(root, target))
         for full in set(fb) | set(fa):
             if refverify.comp_prefix(target, full):
+                continue
+            # (the same object reached through a directory symlink)
+            rf = os.path.realpath(os.path.join(root, full))
+            if rf == real_target or rf.startswith(real_target + os.sep):
                 continue
 
             def sig(lst):
